@@ -118,6 +118,8 @@ pub struct World {
     instances: u16,
     pub follow_ups: u16,
     legacy_host: bool,
+    /// mixed core: programs run through the legacy API although the host is not the legacy host
+    legacy_mask: u8,
     /// tolerate the known retaining-construct finding (tasks linger instead of being discarded)
     pub tolerate_retaining: bool,
     /// (nonce, accepted?) for every replayed resolution: what the shell must have been told
@@ -540,6 +542,16 @@ impl RefRt {
     }
     /// Break the reference cycle world -> task futures -> runtime handle -> world. Must be called
     /// when a case is over; the futures are dropped outside the world lock (their guards lock it).
+    /// mixed core: the programs whose bit is set run through the legacy API (if expressible there)
+    pub fn with_legacy_mask(self, mask: u8) -> Self {
+        self.w.lock().unwrap().legacy_mask = mask;
+        self
+    }
+    /// tasks of the legacy API that have not finished (the core's executor holds each of them)
+    pub fn live_legacy_tasks(&self) -> usize {
+        let w = self.w.lock().unwrap();
+        w.tasks.iter().flatten().filter(|t| t.legacy).count()
+    }
     pub fn dispose(&self) {
         loop {
             let (tasks, exports) = {
@@ -1053,13 +1065,17 @@ impl RefRt {
                         prog.and_then(|p| {
                             let c = instantiate(&w.programs, p, w.instances);
                             w.instances += 1;
-                            c
+                            c.map(|c| (p, c))
                         })
                     };
-                    if let Some(c) = launch {
+                    if let Some((p, c)) = launch {
                         collect_slots(&c, &mut self.w.lock().unwrap().known_slots);
                         let root = self.child(0);
-                        if self.w.lock().unwrap().legacy_host {
+                        let (legacy_host, mask) = {
+                            let w = self.w.lock().unwrap();
+                            (w.legacy_host, w.legacy_mask)
+                        };
+                        if legacy_host || crate::app::through_legacy_api(mask, p, &c) {
                             root.launch_legacy(&c);
                         } else {
                             let g = root.launch(&c);
